@@ -481,26 +481,34 @@ def initialRadius (pr : Params α) (gradPsi : Vec α) : α :=
   let d := if !RealLike.isFinite d || d == 0 then (0.1 : α) * norm2 gradPsi else d
   fmaxS d pr.minRadius
 
+/-- "Estimate Lipschitz constant": finite differences (`curr->x̂` and `cand->grad_ψ` are its
+    workspaces) or the user's `L_0` with `eval_ψ_grad_ψ(*curr)`.  Returns (curr, cand, ticks). -/
+def lipschitzStage (co : Consts α) (P : Problem α) (pr : Params α) (x0 : Vec α) (garbageV : Vec α) :
+    Iterate α × Iterate α × Nat :=
+  let blank := blankIterate co garbageV
+  let curr := { blank with x := x0 }
+  if pr.L0 ≤ 0 then
+    let r := initialLipschitz P pr curr.x
+    ({ curr with L := r.1, psix := r.2.1, gradPsi := r.2.2.1, xhat := r.2.2.2.1 },
+     { blank with gradPsi := r.2.2.2.2 }, 2)
+  else
+    (evalPsiGradPsi P { curr with L := pr.L0 }, blank, 1)
+
+/-- `curr->γ = Lγ_factor / curr->L; eval_prox_grad_step(*curr); eval_ψx̂(*curr);` -/
+def firstStep (P : Problem α) (pr : Params α) (c : Iterate α) : Iterate α :=
+  evalPsiHat P (evalProxGradStep P { c with gamma := pr.LgammaFactor / c.L })
+
 /-- Everything before the main loop: Lipschitz estimate, first proximal-gradient step, initial
     quadratic-upper-bound backtracking, initial radius.  `Sum.inl ticks` = early `NotFinite`. -/
 def initState (co : Consts α) (P : Problem α) (d0 : D) (pr : Params α) (x0 : Vec α)
     (garbageV : Vec α) : Nat ⊕ St α D :=
-  let blank := blankIterate co garbageV
-  let curr := { blank with x := x0 }
-  -- Estimate Lipschitz constant
-  let cnt : Iterate α × Iterate α × Nat :=
-    if pr.L0 ≤ 0 then
-      let r := initialLipschitz P pr curr.x
-      ({ curr with L := r.1, psix := r.2.1, gradPsi := r.2.2.1, xhat := r.2.2.2.1 },
-       { blank with gradPsi := r.2.2.2.2 }, 2)
-    else
-      (evalPsiGradPsi P { curr with L := pr.L0 }, blank, 1)
+  let cnt := lipschitzStage co P pr x0 garbageV
   if !RealLike.isFinite cnt.1.L then .inl cnt.2.2
   else
-  let curr := { cnt.1 with gamma := pr.LgammaFactor / cnt.1.L }
   -- First proximal gradient step, then the quadratic upper bound loop
-  let r := backtrackQub P pr pr.qubFuel (evalPsiHat P (evalProxGradStep P curr)) (cnt.2.2 + 2) 0
-  .inr { curr := r.1, prox := blank, cand := cnt.2.1, gradPsiHat := garbageV, q := garbageV, d := d0,
+  let r := backtrackQub P pr pr.qubFuel (firstStep P pr cnt.1) (cnt.2.2 + 2) 0
+  .inr { curr := r.1, prox := blankIterate co garbageV, cand := cnt.2.1, gradPsiHat := garbageV,
+         q := garbageV, d := d0,
          tick := r.2.1, stats := { stats0 co with stepsizeBacktracks := r.2.2.1 }, k := 0,
          accept := false, Delta := initialRadius pr r.1.gradPsi, rho := co.nan, cbs := [],
          fuelOut := r.2.2.2 }
